@@ -31,12 +31,17 @@ def clause_tables(rep):
 
 def run(rep):
     return generic.run_generic(
-        rep, tc.NAV_FUNCS + [(tc.GT, 'new group'), ('sqlparse.engine.grouping.group_where', 'call sites')] + tc.JOINER_FUNCS,
+        rep, tc.NAV_FUNCS + [(tc.GT, 'new group'), ('sqlparse.engine.grouping.group_where', 'call sites'),
+                             ('sqlparse.sql.IdentifierList.get_identifiers', 'body'),
+                             ('sqlparse.sql.Comparison.left', 'total'), ('sqlparse.sql.Comparison.right', 'total')] + tc.JOINER_FUNCS,
         structural=[clause_tables, tc.identity_side_conditions],
         assumptions=['proved: the first-match search (token_next_by -> _token_matching) that finds the clause-closing keyword, '
-                     'and group_tokens creating exactly the requested span; group_where, get_parameters, get_cases and the '
-                     'composition of the grouping passes on grammar scripts are covered by data / shape obligations and the '
-                     'bounded stand-in (25 241 generated constructs with known extents)'],
+                     'group_tokens creating exactly the requested span, group_where (indices, every WHERE becomes a node), the '
+                     'joiner _group with its passes (indices, recursion, no delimiter absorbed), get_identifiers (yields exactly '
+                     'the children that are neither whitespace nor commas, in order), Comparison.left/right (first / last '
+                     'child); which index group_where computes as the end of the clause, which neighbours the joiner passes '
+                     'accept, get_parameters beyond totality, get_cases and the composition of the passes on grammar scripts '
+                     'are covered by data / shape obligations and the bounded stand-in'],
         trusted=['CPython re engine'])
 
 
